@@ -515,6 +515,13 @@ S == [fs |-> fs, pubs |-> aux.pubs, supplied |-> aux.supplied, planted |-> {}, d
 \* ---- actions -----------------------------------------------------------------
 Alive(p) == p \notin aux.crashed
 
+\* The application reads what a lookup returned as soon as it has it (the driver does, in the same scheduling step as the
+\* operation's last call): under relatime that read marks a still unmarked file (atime := now).
+AppRead(f, nx, api) ==
+    IF nx.ret # <<>> /\ nx.ret[1].ok /\ api \in {"get", "ensure"} /\ nx.ret[1].res = "some" /\ nx.ret[1].hit \in DOMAIN f.inos
+       /\ TLt(f.inos[nx.ret[1].hit].at, f.inos[nx.ret[1].hit].mt)
+    THEN [f EXCEPT !.inos[nx.ret[1].hit].at = Tm(clock)] ELSE f
+
 Begin(p) ==
     /\ Alive(p) /\ pc[p] = "idle" /\ loc[p].opi < Len(Prog[p])
     /\ LET o == Prog[p][loc[p].opi + 1]
@@ -576,7 +583,7 @@ Sys(p) ==
            m == Eff(fs, c, ObsMC(p, c), 0)
            nx == After(p, c)
            created == c.call = "open" /\ c.res = "ok" /\ Has(c, "ino") /\ Lookup(fs, c.path) = "NONE"
-       IN /\ fs' = m
+       IN /\ fs' = AppRead(m, nx, Op(p).api)
           /\ nino' = IF created THEN nino + 1 ELSE nino
           /\ pc' = [pc EXCEPT ![p] = nx.pc]
           /\ loc' = [loc EXCEPT ![p] = nx.loc]
@@ -610,16 +617,14 @@ FailSys(p) ==
                                      !.rets = IF nx.ret # <<>> THEN (p :> (nx.ret[1] @@ [api |-> Op(p).api, key |-> Op(p).key])) @@ @ ELSE @]
                /\ last' = c @@ [e |-> "sys", p |-> p, api |-> Op(p).api, pcl |-> pc[p]]
                /\ clock' = IF nx.tick THEN clock + 1 ELSE clock
-    /\ UNCHANGED <<fs, nino>>
+               /\ fs' = AppRead(fs, nx, Op(p).api)
+    /\ UNCHANGED nino
 
 Return(p) ==
     /\ Alive(p) /\ pc[p] = "ret"
     /\ pc' = [pc EXCEPT ![p] = "idle"]
     /\ last' = [e |-> "ret", p |-> p]
-    /\ LET r == IF p \in DOMAIN aux.rets THEN aux.rets[p] ELSE [ok |-> FALSE] IN
-       fs' = IF r.ok /\ r.api \in {"get", "ensure"} /\ r.res = "some" /\ r.hit \in DOMAIN fs.inos /\ TLt(fs.inos[r.hit].at, fs.inos[r.hit].mt)
-             THEN [fs EXCEPT !.inos[r.hit].at = Tm(clock)] ELSE fs
-    /\ UNCHANGED <<clock, nino, loc, aux>>
+    /\ UNCHANGED <<fs, clock, nino, loc, aux>>
 
 Crash(p) ==
     /\ Alive(p) /\ pc[p] \notin {"idle", "ret"} /\ aux.crashes < CrashBudget
